@@ -301,10 +301,16 @@ def lab_run(task, spec, args):
         return gen()
     if kind in ('dir', 'continues', 'empty_dir'):
         data = task.get_data_object()
+        saw = sorted(str(x.relative_to(data.dir)) for x in data.dir.rglob('*') if x.is_file())
+        _log_record(dict(rec, phase='workdir', saw_in_workdir=saw))
         for name, content in value.items():
             p = data.dir / name
             p.parent.mkdir(parents=True, exist_ok=True)
-            p.write_text(content)
+            if kind == 'continues':
+                p.write_text(content)          # a resumable task overwrites / continues what an earlier attempt left
+            else:
+                with p.open('a') as fh:        # a directory task relies on a fresh work directory
+                    fh.write(content)
             if fault_kind == 'raise_mid_dir':
                 raise LabFault(f'{full} dir fault uid={uid}')
         if kind == 'continues':
